@@ -1,6 +1,8 @@
 """C13 — malformed calls are rejected with TypeError/ValueError before any side effect; well-formed calls are accepted."""
 from __future__ import annotations
 
+from hypothesis import strategies as st
+
 from vf import faults, gen
 from vf.core import Clause, Property, Violation
 from vf.osk import call_kwargs, mk_model, mk_teams
@@ -84,6 +86,60 @@ def check_c13(case, ctx):
     ctx.nontrivial_if(deep > 0)
 
 
+def check_mutated_in_place(case, ctx):
+    """A teams list that was accepted once and is then edited IN PLACE into a malformed one must be rejected when passed again
+    (same outer list object, same model), for every op pair."""
+    cfg, teams, call = case["cfg"], case["teams"], case["call"]
+    kind = cfg["kind"]
+    model = mk_model(cfg)
+    foreign = faults.foreign_models()
+    sizes = [len(t) for t in teams]
+    edits = [f for f in faults.enumerate_faults(kind, sizes, None, op="predict_win") if f["site"] in ("team", "player")] + [{"site": "teams", "fault": "pop-to-one"}]
+    n = 0
+    for first_op, second_op in case["op_pairs"]:
+        for fault in [edits[i % len(edits)] for i in case["edit_idx"]]:
+            objs = mk_teams(model, teams)  # the caller's lobby: one outer list object used for both calls
+            try:
+                getattr(model, first_op)(objs) if first_op != "rate" else model.rate(objs, **call_kwargs(call))
+            except Exception as e:  # noqa: BLE001
+                raise Violation(f"valid-call-rejected:{first_op}:{type(e).__name__}", f"{kind} {first_op} raised {e!r}") from None
+            flat = [p for t in objs for p in t if hasattr(p, "mu")]
+            # edit in place
+            if fault["site"] == "teams":
+                del objs[1:]
+            elif fault["site"] == "team":
+                objs[fault["i"]] = [] if fault["fault"] == "empty" else faults._container(fault["fault"], objs[fault["i"]], len(objs[fault["i"]]))
+            else:
+                objs[fault["i"]][fault["j"]] = faults._bad_player(fault["fault"], foreign)
+            before = rating_snapshot(flat)
+            before_m = model_snapshot(model)
+            try:
+                out = getattr(model, second_op)(objs) if second_op != "rate" else model.rate(objs, **{k: v for k, v in call_kwargs(call).items() if k in ("tau", "limit_sigma")})
+                verdict = "accepted"
+            except (TypeError, ValueError):
+                verdict = "rejected"
+            except Exception as e:  # noqa: BLE001
+                verdict = "wrong-exception:" + type(e).__name__
+            ctx.called(2)
+            n += 1
+            if verdict != "rejected":
+                raise Violation(f"mutated-in-place:{second_op}:{fault['site']}:{verdict.split(':')[0]}",
+                                f"{kind}: lobby accepted by {first_op}, then edited in place ({faults.describe(fault)}), then passed to {second_op}: {verdict}")
+            if rating_snapshot(flat) != before or model_snapshot(model) != before_m:
+                raise Violation(f"mutated-in-place:{second_op}:side-effect", f"{kind}: rejected {second_op} after in-place edit ({faults.describe(fault)}) modified a rating or the model")
+    ctx.enumerated("accept / edit in place / call again", n)
+    ctx.nontrivial_if(n > 0)
+
+
+@st.composite
+def mutated_cases(draw):
+    g = draw(gen.games(max_teams=4, max_size=3, enc_kinds=["int", "omitted", "scores"]))
+    ops = ["rate", "predict_win", "predict_draw", "predict_rank"]
+    g["op_pairs"] = draw(st.lists(st.tuples(st.sampled_from(ops), st.sampled_from(ops)).map(list), min_size=1, max_size=3))
+    g["edit_idx"] = draw(st.lists(st.integers(0, 10 ** 6), min_size=1, max_size=4))
+    return g
+
+
 STRAT = gen.games(max_teams=5, max_size=3)
 
 
@@ -109,6 +165,10 @@ PROPERTY = Property(
                rule="one generated valid call (2..5 teams x 1..3 players, any outcome encoding / options); ALL sites x fault kinds of the grammar enumerated on it "
                     "for rate and the three predicts (100-400 faulty calls per case); non-trivial = the case contains faults at depth >= 2 (player slot, "
                     "element of ranks/scores) or foreign-model ratings (always true for rate)"),
+        Clause(name="accepted-then-edited-in-place", strategy=mutated_cases(), check=check_mutated_in_place, quick=1500, thorough=30000,
+               rule="a lobby (one outer list object) is accepted by one operation, edited IN PLACE into a malformed one (wrong container / empty team / "
+                    "non-rating or foreign player at a drawn slot, or cut down to one team) and passed again to the same model: must be rejected without side "
+                    "effect; op pairs and edits drawn"),
         Clause(name="atheris-garbage", kind="custom", custom=fuzz_custom, check=check_fuzzcase, quick=10000, thorough=800000, shards_quick=2, shards_thorough=16,
                rule="coverage-guided libFuzzer campaign: a byte-chosen site of a small valid call receives an object built from a grammar (None, bool, int, float, "
                     "str, bytes, own / foreign ratings, object(), nested list / tuple / set / dict); the target's own predicate decides well-formedness; "
